@@ -171,26 +171,48 @@ def validateEdits (edits : List XEdit) : Option Err :=
         | some txt => if (J.parse txt).isNone then some .badXattrJson else none
         | none => none) none
 
+/-- The shape of an API call once its arguments are checked: rejected with an error, or exactly one
+    single-row transaction on `(c, k)` with row function `f`. -/
+inductive OpShape where
+  | rejected (e : Err)
+  | row (c k : String) (f : RowFn)
+
+def runShape (s : State) : OpShape → State × Out
+  | .rejected e => (s, { err := e })
+  | .row c k f => withNewCas s c (liftRow k f)
+
+def wwxShape (c k : String) (val : ValArg) (edits : List XEdit) (ifCas : Option Nat) (exp : Option Nat)
+    (o : XOpts) (macros : List (String × MacroKind)) : OpShape :=
+  match validateEdits edits with
+  | some err => .rejected err
+  | none => .row c k (wwxRow k val edits ifCas exp o macros)
+
 def writeWithXattrs (s : State) (c k : String) (val : ValArg) (edits : List XEdit) (ifCas : Option Nat) (exp : Option Nat)
     (o : XOpts) (macros : List (String × MacroKind)) : State × Out :=
-  match validateEdits edits with
-  | some err => (s, { err := err })
-  | none => withNewCas s c (wwxFn k val edits ifCas exp o macros)
+  runShape s (wwxShape c k val edits ifCas exp o macros)
 
 /-! ### Public wrappers. `sets` are (name, value) with `none` for a nil value; `dels` is `none` for a nil slice. -/
 
-def setsToEdits (sets : List (String × Option String)) : List XEdit := sets
+def shapeSetXattrs (c k : String) (sets : List (String × Option String)) : OpShape :=
+  wwxShape c k .keep sets none none {} []
 
 def opSetXattrs (s : State) (c k : String) (sets : List (String × Option String)) : State × Out :=
-  writeWithXattrs s c k .keep sets none none {} []
+  runShape s (shapeSetXattrs c k sets)
+
+def shapeRemoveXattrs (c k : String) (names : List String) (cas : Nat) : OpShape :=
+  wwxShape c k .keep (names.map (·, none)) (some cas) none {} []
 
 def opRemoveXattrs (s : State) (c k : String) (names : List String) (cas : Nat) : State × Out :=
-  writeWithXattrs s c k .keep (names.map (·, none)) (some cas) none {} []
+  runShape s (shapeRemoveXattrs c k names cas)
+
+def shapeUpdateXattrs (c k : String) (exp cas : Nat) (sets : List (String × Option String))
+    (macros : List (String × MacroKind)) : OpShape :=
+  if sets.any (fun p => p.2.isNone) then .rejected .badXattrJson
+  else wwxShape c k .keep sets (some cas) (some exp) {} macros
 
 def opUpdateXattrs (s : State) (c k : String) (exp cas : Nat) (sets : List (String × Option String))
     (macros : List (String × MacroKind)) : State × Out :=
-  if sets.any (fun p => p.2.isNone) then (s, { err := .badXattrJson })
-  else writeWithXattrs s c k .keep sets (some cas) (some exp) {} macros
+  runShape s (shapeUpdateXattrs c k exp cas sets macros)
 
 /-- The argument checks shared by `WriteWithXattrs` and `WriteTombstoneWithXattrs`. -/
 def mergeDeletes (sets : List (String × Option String)) (dels : List String) : Err ⊕ List XEdit :=
@@ -199,41 +221,57 @@ def mergeDeletes (sets : List (String × Option String)) (dels : List String) : 
     | .inl e => .inl e
     | .inr edits => if edits.any (fun p => p.1 = d) then .inl .upsertAndDelete else .inr (edits ++ [(d, none)])) (.inr sets)
 
-def opWriteWithXattrs (s : State) (c k : String) (exp cas : Nat) (value : Option String) (sets : List (String × Option String))
-    (dels : Option (List String)) (preserveExp : Bool) (macros : List (String × MacroKind)) : State × Out :=
-  if sets.any (fun p => p.2.isNone) then (s, { err := .nilXattr })
-  else if cas = 0 ∧ dels.isSome then (s, { err := .delXattrOnInsert })
-  else if (value.getD "").isEmpty ∧ sets.isEmpty then (s, { err := .needXattrs })
+def shapeWriteWithXattrs (c k : String) (exp cas : Nat) (value : Option String) (sets : List (String × Option String))
+    (dels : Option (List String)) (preserveExp : Bool) (macros : List (String × MacroKind)) : OpShape :=
+  if sets.any (fun p => p.2.isNone) then .rejected .nilXattr
+  else if cas = 0 ∧ dels.isSome then .rejected .delXattrOnInsert
+  else if (value.getD "").isEmpty ∧ sets.isEmpty then .rejected .needXattrs
   else
     match mergeDeletes sets (dels.getD []) with
-    | .inl e => (s, { err := e })
+    | .inl e => .rejected e
     | .inr edits =>
-      writeWithXattrs s c k (match value with | some b => .body b | none => .keep) edits (some cas)
+      wwxShape c k (match value with | some b => .body b | none => .keep) edits (some cas)
         (if preserveExp then none else some exp) {} macros
+
+def opWriteWithXattrs (s : State) (c k : String) (exp cas : Nat) (value : Option String) (sets : List (String × Option String))
+    (dels : Option (List String)) (preserveExp : Bool) (macros : List (String × MacroKind)) : State × Out :=
+  runShape s (shapeWriteWithXattrs c k exp cas value sets dels preserveExp macros)
+
+def shapeWriteTombstoneWithXattrs (c k : String) (exp cas : Nat) (sets : List (String × Option String))
+    (dels : Option (List String)) (deleteBody : Bool) (macros : List (String × MacroKind)) : OpShape :=
+  if sets.isEmpty then .rejected .needXattrs
+  else if cas = 0 ∧ dels.isSome then .rejected .delXattrOnInsert
+  else if sets.any (fun p => p.2.isNone) then .rejected .nilXattr
+  else
+    match mergeDeletes sets (dels.getD []) with
+    | .inl e => .rejected e
+    | .inr edits =>
+      wwxShape c k .delete edits (some cas) (some exp)
+        { requireExistingDoc := deleteBody || cas != 0, deleteBody := deleteBody } macros
 
 def opWriteTombstoneWithXattrs (s : State) (c k : String) (exp cas : Nat) (sets : List (String × Option String))
     (dels : Option (List String)) (deleteBody : Bool) (macros : List (String × MacroKind)) : State × Out :=
-  if sets.isEmpty then (s, { err := .needXattrs })
-  else if cas = 0 ∧ dels.isSome then (s, { err := .delXattrOnInsert })
-  else if sets.any (fun p => p.2.isNone) then (s, { err := .nilXattr })
-  else
-    match mergeDeletes sets (dels.getD []) with
-    | .inl e => (s, { err := e })
-    | .inr edits =>
-      writeWithXattrs s c k .delete edits (some cas) (some exp)
-        { requireExistingDoc := deleteBody || cas != 0, deleteBody := deleteBody } macros
+  runShape s (shapeWriteTombstoneWithXattrs c k exp cas sets dels deleteBody macros)
+
+def shapeWriteResurrectionWithXattrs (c k : String) (exp : Nat) (value : Option String)
+    (sets : List (String × Option String)) (preserveExp : Bool) (macros : List (String × MacroKind)) : OpShape :=
+  match value with
+  | none => .rejected .needBody
+  | some b =>
+    if sets.any (fun p => p.2.isNone) then .rejected .nilXattr
+    else wwxShape c k (.body b) sets none (if preserveExp then none else some exp) { insertDoc := true } macros
 
 def opWriteResurrectionWithXattrs (s : State) (c k : String) (exp : Nat) (value : Option String)
     (sets : List (String × Option String)) (preserveExp : Bool) (macros : List (String × MacroKind)) : State × Out :=
-  match value with
-  | none => (s, { err := .needBody })
-  | some b =>
-    if sets.any (fun p => p.2.isNone) then (s, { err := .nilXattr })
-    else writeWithXattrs s c k (.body b) sets none (if preserveExp then none else some exp) { insertDoc := true } macros
+  runShape s (shapeWriteResurrectionWithXattrs c k exp value sets preserveExp macros)
+
+def shapeUpdateXattrDeleteBody (c k xk : String) (exp cas : Nat) (xv : Option String)
+    (macros : List (String × MacroKind)) : OpShape :=
+  wwxShape c k .delete [(xk, xv)] (some cas) (some exp) {} macros
 
 def opUpdateXattrDeleteBody (s : State) (c k xk : String) (exp cas : Nat) (xv : Option String)
     (macros : List (String × MacroKind)) : State × Out :=
-  writeWithXattrs s c k .delete [(xk, xv)] (some cas) (some exp) {} macros
+  runShape s (shapeUpdateXattrDeleteBody c k xk exp cas xv macros)
 
 /-! ### DeleteWithXattrs / DeleteSubDocPaths -/
 
@@ -256,7 +294,7 @@ def delxRow (k : String) (names : List String) : RowFn := fun newCas _ old =>
 
 def delxFn (k : String) (names : List String) : TxnFn := liftRow k (delxRow k names)
 
-def opDeleteWithXattrs (s : State) (c k : String) (names : List String) : State × Out := withNewCas s c (delxFn k names)
+def opDeleteWithXattrs (s : State) (c k : String) (names : List String) : State × Out := runShape s (.row c k (delxRow k names))
 
 def dspRow (k : String) (names : List String) : RowFn := fun newCas _ old =>
   match old with
@@ -271,7 +309,7 @@ def dspRow (k : String) (names : List String) : RowFn := fun newCas _ old =>
 
 def dspFn (k : String) (names : List String) : TxnFn := liftRow k (dspRow k names)
 
-def opDeleteSubDocPaths (s : State) (c k : String) (names : List String) : State × Out := withNewCas s c (dspFn k names)
+def opDeleteSubDocPaths (s : State) (c k : String) (names : List String) : State × Out := runShape s (.row c k (dspRow k names))
 
 /-! ### SetWithMeta / DeleteWithMeta: one transaction, caller-supplied CAS, no clock, no `lastCas` -/
 
